@@ -151,6 +151,9 @@ impl<S: BDDSymbol> BDDEnv<S> {
         symbol: S,
         false_subtree: Rc<BDD<S>>,
     ) -> Rc<BDD<S>> {
+        #[cfg(rsbdd_verif)]
+        crate::verif_hooks::tick();
+
         // early simplification step
         let ins = self.simplify(&Rc::new(BDD::Choice(true_subtree, symbol, false_subtree)));
 
@@ -425,6 +428,9 @@ impl<S: BDDSymbol> BDDEnv<S> {
     {
         let mut s = Rc::clone(&a);
         loop {
+            #[cfg(rsbdd_verif)]
+            crate::verif_hooks::tick();
+
             let snew = t(Rc::clone(&s));
             if snew == s {
                 break;
